@@ -65,7 +65,13 @@ fn main() {
             }
         }
     }
-    let kb: usize = std::env::var("VREC_STACK_KB").ok().and_then(|x| x.parse().ok()).unwrap_or(384);
+    let mut kb: usize = std::env::var("VREC_STACK_KB").ok().and_then(|x| x.parse().ok()).unwrap_or(384);
+    // `--stack-kb=N` on the command line (used by the small-stack pass of C17) wins over the environment
+    for a in std::env::args() {
+        if let Some(v) = a.strip_prefix("--stack-kb=") {
+            kb = v.parse().expect("stack size in KiB");
+        }
+    }
     let h = std::thread::Builder::new().stack_size(kb * 1024).spawn(real_main).expect("spawn");
     if h.join().is_err() {
         std::process::exit(101);
